@@ -4,6 +4,7 @@
 import Driver.Codec
 import PyTreesModel.Edit
 import PyTreesModel.Idioms
+import PyTreesModel.Manager
 
 namespace Bt
 open Codec
@@ -13,6 +14,7 @@ structure St where
   w : Store
   keys : List String
   dead : Bool := false      -- an operation raised: the scenario is over
+  mgr : Mgr := {}
 
 /-- `o=1:S,2:F` -/
 def parsePairs (s : String) : List (Nat × String) :=
@@ -62,6 +64,28 @@ def stopAtL (target : Nat) : List Node → List Node × List Ev
 | c :: cs => let r := stopAt target c; let rs := stopAtL target cs; (r.1 :: rs.1, r.2 ++ rs.2)
 end
 
+def mevStr : MEv → String
+| .preOnce => "preOnce" | .pre i => s!"pre{i}" | .vInit j => s!"vi{j}" | .vRun j i s => s!"vr{j}:{i}:{stStr s}"
+| .vFin j => s!"vf{j}" | .post i => s!"post{i}" | .postOnce => "postOnce"
+
+def pairsStr (l : List (Nat × Status)) : String :=
+  String.intercalate "," ((l.mergeSort (fun a b => a.1 ≤ b.1)).map (fun (i, s) => s!"{i}:{stStr s}"))
+
+def getTok (toks : List String) (pfx : String) : String :=
+  match toks.find? (fun t => t.startsWith pfx) with
+  | some t => (t.drop pfx.length).toString
+  | none => ""
+
+/-- ids in `iterate` order up to (excluding) the first Parallel whose policy is invalid -/
+def setupLog (n : Node) : List Nat × Bool :=
+  let rec go : List Node → List Nat → List Nat × Bool
+    | [], acc => (acc.reverse, true)
+    | x :: xs, acc =>
+      match x with
+      | .par _ p _ _ cs => if Node.validPolicy p cs then go xs (x.id :: acc) else ((x.id :: acc).reverse, false)
+      | _ => go xs (x.id :: acc)
+  go (Node.iterate n) []
+
 def edit (st : St) : EditRes → St × List String
 | .done n tr => let st' := { st with tree := n }; (st', "R True" :: report st' tr)
 | .notFound => (st, "R False" :: report st [])
@@ -84,6 +108,29 @@ def step (st : St) (line : String) : St × List String :=
       | some v => let st' := { st with w := st.w.set k v, keys := k :: st.keys }; (st', report st' [])
       | none => (st, ["bad-op"])
   | ["unsetbb", k] => let st' := { st with w := st.w.unset k }; (st', report st' [])
+  | "mgr" :: rest =>
+      let v := getTok rest "v="
+      let m : Mgr := { visitors := v.toList.map (· == 'f'), nPre := (getTok rest "pre=").toNat?.getD 0,
+                       nPost := (getTok rest "post=").toNat?.getD 0 }
+      ({ st with mgr := m }, ["ok"])
+  | "mtick" :: rest =>
+      -- `a=o|f`: the one-off pre-tick handler adds a visitor (ordinary / full) before the traversal starts
+      let add := getTok rest "a="
+      let m0 : Mgr := if add = "" then st.mgr else { st.mgr with visitors := st.mgr.visitors ++ [add == "f"] }
+      match m0.treeTick (getTok rest "p=" = "1" || add != "") (getTok rest "q=" = "1") (mkEnv rest) st.w st.tree with
+      | .ok (m', n', w', log, tr) =>
+          let st' := { st with tree := n', w := w', mgr := m' }
+          (st', ["L " ++ String.intercalate " " (log.map mevStr), s!"K {m'.count}",
+                 s!"V {pairsStr m'.snap.visited} | {pairsStr m'.snap.previously} | {boolStr m'.snap.changed}"]
+                ++ report st' tr)
+      | .error e => ({ st with dead := true }, ["ERR " ++ errStr e])
+  | ["setup"] =>
+      let (ids, ok) := setupLog st.tree
+      match Mgr.setupNode st.tree with
+      | .ok n' => ({ st with tree := n' }, ["U " ++ String.intercalate " " (ids.map toString)] ++ report { st with tree := n' } [])
+      | .error e => ({ st with dead := true }, ["U " ++ String.intercalate " " (ids.map toString), "ERR " ++ errStr e])
+  | ["shutdown"] =>
+      (st, ["D " ++ String.intercalate " " ((Node.iterate st.tree).map (fun x => toString x.id))])
   | ["prune", i] =>
       match i.toNat? with
       | some i => edit st (st.tree.prune i)
